@@ -44,6 +44,15 @@ Print Assumptions C20_inverse_certified.
 (* ---------------------------------------------------------------------------------------------
    to_joint_gaussian *)
 
+(* sessions on one network: after any sequence of add_cpds calls (cs, oldest first, on a network holding l) the
+   CPD used for variable v by to_joint_gaussian / predict is the LAST one added for v -- in-place replacement
+   never leaves a stale CPD in front of it -- and the previous one when none was added *)
+Theorem C20_add_cpds_last_wins : forall (K : fieldT) (cs l : list (cpd K)) v,
+  get_cpd K (add_cpds K l cs) v =
+  match find (fun c => Nat.eqb (cvar c) v) (rev cs) with Some c => Some c | None => get_cpd K l v end.
+Proof. exact get_cpd_add_cpds. Qed.
+Print Assumptions C20_add_cpds_last_wins.
+
 (* every joint mean satisfies mu_v = b0_v + sum_p b_{v,p} mu_p, every parent p of v precedes v *)
 Theorem C20_mean_recursion : forall (K : fieldT), field_ok K ->
   forall (rnd : K -> K) cpds vars mu Sg,
